@@ -267,7 +267,7 @@ int main(int argc, char **argv) {
       base += 100000000; }
     /* qstrreplace on long inputs: (source length, matches, token, word length); products of the lengths around 2^31 and 2^32 */
     { static const struct { size_t sl, nm; const char *tok; size_t wl; } LG[] = {
-          {5000, 10, "a", 3000}, {5000, 10, "${a}", 3000}, {70000, 3, "a", 100}, {65537, 2, "a", 65537}, {46341, 1, "a", 46341}, {65536, 1, "ab", 65536},
+          {5000, 10, "a", 3000}, {5000, 10, "${a}", 3000}, {4000, 10, "a", 3000}, {2500, 3, "${a}", 2500}, {4095, 1, "a", 2}, {4094, 2, "ab", 3}, {4095, 4095, "a", 2}, {300, 100, "a", 64}, {70000, 3, "a", 100}, {65537, 2, "a", 65537}, {46341, 1, "a", 46341}, {65536, 1, "ab", 65536},
           {(4u << 20), 1, "${a}", 4096}, {(1u << 20), 2, "${a}", 8192}, {300000, 2000, "ab", 7}, {100000, 50000, "a", 0}, {100000, 25000, "ab", 1} };
       long idx = 0;
       for (size_t i = 0; i < sizeof LG / sizeof LG[0]; i++) for (int m = 0; m < 4; m++, idx++) { if (!vf_mine(base + idx)) continue;
